@@ -49,7 +49,7 @@ static const int inc_f14 = 1;   /* the querying API is used on every memory attr
 static unsigned long PS;
 static unsigned long st_ep, st_loadfail, st_write_ok, st_write_err, st_adopt_ok, st_adopt_einval, st_adopt_ebusy, st_adopt_fail,
   st_mod_eperm, st_mod_einval, st_mod_ebusy, st_mod_ok, st_signal, st_trace_allocs, st_kind_S, st_kind_X, st_mods, st_dist, st_mattr,
-  st_kinds, st_misc, st_restrict, st_infos, st_allow, st_readopt, st_twoseg, st_origfirst, st_objs, st_len_pages, st_f14, st_f16;
+  st_kinds, st_misc, st_restrict, st_infos, st_allow, st_readopt, st_twoseg, st_origfirst, st_objs, st_len_pages, st_f14, st_f16, st_stale_orig;
 
 /* ---- small helpers ---- */
 static const char *errname(int e) {
@@ -637,8 +637,13 @@ static void run_episode(const char *id, char kind, unsigned long tflags, int mis
 
   /* (3a) content of the original, once its lazily refreshed caches (distances objs, memattr targets/initiators after a
    * restrict) are up to date — write refreshes them too before duplicating, and the public query API refreshes on demand */
-  hwloc_topology_refresh(t);
-  put_content(t, "orig", 1);
+  {
+    /* most of the time the reference content is read from a refreshed DUPLICATE, so that the original reaches
+     * hwloc_shmem_topology_write() with whatever stale caches the modifications left (restrict then write, as a user would) */
+    hwloc_topology_t c = NULL;
+    if (rng_chance(65) && hwloc_topology_dup(&c, t) == 0) { hwloc_topology_refresh(c); put_content(c, "orig", 1); hwloc_topology_destroy(c); st_stale_orig++; }
+    else { hwloc_topology_refresh(t); put_content(t, "orig", 1); }
+  }
 
   /* segments: the first at <offpages>, optionally a second one behind it at another address */
   struct seg sg[2]; int nseg = (variant & 1) ? 2 : 1; if (nseg == 2) st_twoseg++;
